@@ -478,29 +478,90 @@ func c05SortedIn(c *core.Ctx, rule string, rels []string) {
 	}
 	c.Analysed("ocimem.mapKeysIter")
 	// params: m, cmp, startAfter
+	// strictCmp: cond (with polarity) establishes cmp(startAfter, k) < 0 for the
+	// element k; cmpV is the comparator parameter as seen from where the test is.
+	strictCmp := func(cd facts.Cond) bool {
+		x, op, y, ok := facts.Cmp(cd)
+		if !ok {
+			return false
+		}
+		call, isCall := facts.Resolve(x).(*ssa.Call)
+		k, isK := facts.ConstInt(y)
+		if !isCall || !isK || k != 0 || !argIsParam(call.Call.Value, mk, 1) || len(call.Call.Args) != 2 {
+			return false
+		}
+		a0IsStart := argIsParam(call.Call.Args[0], mk, 2)
+		a1IsStart := argIsParam(call.Call.Args[1], mk, 2)
+		return (a0IsStart && !a1IsStart && op == token.LSS) || (a1IsStart && !a0IsStart && op == token.GTR)
+	}
+	// form (b): every key is collected and then the non-qualifying ones are
+	// removed with slices.DeleteFunc(ks, func(k) bool { return !(cmp(startAfter,k) < 0) }),
+	// whose RESULT is the slice that is sorted and returned.
+	deleteFiltered := func() (ssa.CallInstruction, bool) {
+		for _, ci := range facts.CallsIn(mk) {
+			if facts.CalleeName(ci.Common()) != "slices.DeleteFunc" || len(ci.Common().Args) != 2 {
+				continue
+			}
+			mc, ok := facts.Resolve(ci.Common().Args[1]).(*ssa.MakeClosure)
+			if !ok {
+				return ci, false
+			}
+			pred := mc.Fn.(*ssa.Function)
+			okAll, nret := true, 0
+			for _, r := range returnsOf(pred) {
+				nret++
+				rv := facts.RetVal(r, 0)
+				// the element is deleted iff rv is true: rv false must imply strictly-after
+				bo, isB := rv.(*ssa.BinOp)
+				if !isB {
+					// constant true (delete) is fine; constant false must be under a strict guard
+					if cst, isC := rv.(*ssa.Const); isC && cst.Value != nil {
+						if cst.Value.String() == "true" {
+							continue
+						}
+						strict := false
+						for _, cd := range facts.CondsAt(r.Block()) {
+							if strictCmp(cd) {
+								strict = true
+							}
+						}
+						okAll = okAll && strict
+						continue
+					}
+					okAll = false
+					continue
+				}
+				okAll = okAll && strictCmp(facts.Cond{V: bo, Pos: false})
+			}
+			used := false
+			if v := ci.Value(); v != nil {
+				for _, c2 := range facts.CallsIn(mk) {
+					if sl, _, isSort := isSortCall(c2); isSort && facts.Resolve(sl) == ssa.Value(v) {
+						used = true
+					}
+				}
+			}
+			return ci, okAll && nret > 0 && used
+		}
+		return nil, false
+	}
 	found := false
+	dci, dok := deleteFiltered()
 	for _, ci := range facts.CallsIn(mk) {
 		if bi, ok := ci.Common().Value.(*ssa.Builtin); !ok || bi.Name() != "append" {
 			continue
 		}
 		strict := false
 		for _, cd := range facts.CondsAt(ci.Block()) {
-			x, op, y, ok := facts.Cmp(cd)
-			if !ok {
-				continue
-			}
-			call, isCall := facts.Resolve(x).(*ssa.Call)
-			k, isK := facts.ConstInt(y)
-			if !isCall || !isK || k != 0 || !argIsParam(call.Call.Value, mk, 1) || len(call.Call.Args) != 2 {
-				continue
-			}
-			a0IsStart := argIsParam(call.Call.Args[0], mk, 2)
-			a1IsStart := argIsParam(call.Call.Args[1], mk, 2)
-			if (a0IsStart && op == token.LSS) || (a1IsStart && op == token.GTR) {
+			if strictCmp(cd) {
 				strict = true
 			}
 		}
 		found = true
+		if !strict && dci != nil {
+			c.Check(dok, rule, "ocimem.mapKeysIter/strictly-after", dci.Pos(), "keys not satisfying cmp(startAfter, k) < 0 are removed by slices.DeleteFunc and its result is what is sorted", "the key filter (slices.DeleteFunc) does not remove exactly the keys failing the strict test cmp(startAfter, k) < 0, or its result is not the slice that is sorted: the start point itself (or items before it) would be listed")
+			continue
+		}
 		c.Check(strict, rule, "ocimem.mapKeysIter/strictly-after", ci.Pos(), "keys kept only under cmp(startAfter, k) < 0", "the key filter is not the strict test cmp(startAfter, k) < 0: the start point itself (or items before it) would be listed")
 	}
 	if !found {
